@@ -12,6 +12,7 @@ rm -rf "$SCRATCH/grog"; mkdir -p "$SCRATCH/grog" || exit 2
 rsync -a --exclude .git --exclude docs --exclude examples --exclude integration --exclude pkl --exclude '*_test.go' "$REPO"/ "$SCRATCH/grog"/ || exit 2
 rsync -a "$HERE/_overlay/" "$SCRATCH/grog/" || exit 2
 cd "$SCRATCH/grog" || exit 2
+$GO mod edit -require=github.com/anishathalye/porcupine@v1.3.0 || exit 2
 "$HERE/bin/simrewrite" "$SCRATCH/grog" > "$SCRATCH/rewrite.log" 2>&1 || { cat "$SCRATCH/rewrite.log"; echo "INFRA: simrewrite failed"; exit 2; }
 $GO test -c -o "$SCRATCH/simworker" ./internal/zzharness > "$SCRATCH/build.log" 2>&1 || { head -50 "$SCRATCH/build.log"; echo "INFRA: worker build failed"; exit 2; }
 exit 0
